@@ -329,6 +329,26 @@ func registerDeltaFixed() {
 			deltaFresh(c, vals, c.p[0] == 1)
 		}})
 
+	// the zig-zag pair the delta codec stores its min delta with (exported: ZigZagEncode / ZigZagDecode)
+	register(family{name: "delta.zigzag",
+		enum: func(th bool, emit func(p ...int64) bool) {
+			for i := range ZA {
+				if !emit(int64(i)) {
+					return
+				}
+			}
+		},
+		run: func(c *ctx) {
+			x := ZA[c.p[0]]
+			c.text = fmt.Sprintf("zigzag %d", x)
+			c.nontrivial = x != 0
+			enc := encoding.ZigZagEncode(x)
+			if got := encoding.ZigZagDecode(enc); got != x {
+				c.viol("roundtrip", "zigzag", "encoding.ZigZagDecode", "ZigZagDecode(ZigZagEncode(%d)=%d) = %d", x, enc, got)
+			}
+			c.outcome("parity=%d", enc&1)
+		}})
+
 	register(family{name: "delta.hist",
 		enum: func(th bool, emit func(p ...int64) bool) {
 			n := len(ia(th))
